@@ -163,6 +163,50 @@ def marked_rules(ck):
                   "a node is merged into a child under (one child: %s, has value: %s): the tree shape is no longer canonical / entries are lost" % (one, hv), f.loc(bi))
     ck.floor("DOM", "path-compression sites", ncol, 3)
 
+    # values written by an older generation are never overwritten in place: `values[i] = ..` / `&mut values[i]` is reached
+    # only for an entry of the current generation (`Entry::Mutable`, directly or through `is_owned()`); every other kind of
+    # entry gets a fresh slot (an in-place write through a read-only entry changes the generation it was inherited from)
+    def mutable_guard(f, bi):
+        for (sb, st) in f.switches():
+            if not f.dominates(sb, bi) or sb == bi:
+                continue
+            p = op_place(st["d"])
+            src_ty, via_is_owned = None, False
+            for (b2, si, it) in (f.defs().get(p[0], []) if p else []):
+                if si != "t" and it["rv"].get("k") == "discr":
+                    q = it["rv"].get("p")
+                    if q:
+                        src_ty = f.locals[q[0]] if not q[1] else "proj"
+                        for (b3, s3, i3) in f.defs().get(q[0], []):
+                            if s3 == "t" and re.search(r"Entry::is_owned$", i3["f"].get("path", "")):
+                                via_is_owned = True
+                        if "low_level::Entry" in (f.locals[q[0]] or "") or any("Entry" in str(x) for x in q[1]) or ("Entry" in f.locals[q[0]]):
+                            src_ty = "Entry"
+            if not (via_is_owned or src_ty == "Entry"):
+                continue
+            edges = [v for v, tb in st["t"] if f.dominates(tb, bi)]
+            others = [v for v, tb in st["t"] if not f.dominates(tb, bi)]
+            if edges == ["1"] and not (st["o"] is not None and f.dominates(st["o"], bi)):
+                return True
+        return False
+    nvw = 0
+    c = crate("sc", E)
+    for p0 in sorted(c.paths()):
+        if not p0.startswith(MT) or "{closure" in p0:
+            continue
+        for b in c.get_all(p0):
+            f = Fn(b)
+            for (bi, t) in f.calls(r"ops::IndexMut::index_mut$|::get_mut$|get_unchecked_mut$"):
+                o = f.origins(t["args"][0], deep=True)
+                if not (("field", "values") in o and ("field", "borrowed_values") not in o):
+                    continue
+                nvw += 1
+                ok = mutable_guard(f, bi)
+                ck.ob("DOM", f.path, "in-place-value-write-only-for-own-entries@%d" % nvw, ok,
+                      "the in-place access to values[..] is reached only for Entry::Mutable" if ok else
+                      "values[..] is written/handed out mutably for an entry that is not known to be Entry::Mutable: a value inherited from an older generation is changed in place", f.loc(bi))
+    ck.floor("DOM", "in-place accesses to the values table", nvw, 5)
+
 
 def run(ck):
     ck.explanation = ("Decides checkpoint completeness (every table length recorded, every table truncated with its own field) and "
